@@ -142,10 +142,15 @@ impl TreeNodeWithPreviousValue {
         // our "target_epoch" may point to some older data. Therefore we may need to load a previous
         // version of this node.
         if self.latest_node.last_epoch > target_epoch {
-            if let Some(previous_node) = &self.previous_node {
+            if let Some(previous_node) = self
+                .previous_node
+                .as_ref()
+                .filter(|previous_node| previous_node.last_epoch <= target_epoch)
+            {
                 Ok(previous_node.clone())
             } else {
-                // no previous, return not found
+                // no previous (or the previous value is itself newer than the target epoch, i.e. the
+                // reader is more than one epoch behind), return not found
                 Err(StorageError::NotFound(format!(
                     "TreeNode {:?} at epoch {}",
                     NodeKey(self.label),
